@@ -174,3 +174,67 @@ def u_r7_index_deletion(schema: Schema, rep: Report):
                 rep.note(f"U-R7 undecided: {ci.name}.{nm} deletes by index while iterating {t[:60]}")
     if n == 0:
         rep.check("U-R7", "groom:no-positional-deletion", True, "children are removed by identity, not by position", "")
+
+
+def _guarded_by_test(node, subj: str) -> bool:
+    """is `node` under an if / conditional expression / short-circuit whose test mentions `subj`?"""
+    from .source import parent
+
+    child, par = node, parent(node)
+    while par is not None and not isinstance(par, (ast.FunctionDef, ast.Lambda)):
+        if isinstance(par, (ast.If, ast.IfExp, ast.While)) and child is not par.test and subj in text(par.test):
+            return True
+        if isinstance(par, ast.BoolOp):
+            k = next((i for i, v in enumerate(par.values) if v is child), 0)
+            if any(subj in text(v) for v in par.values[:k]):
+                return True
+        if isinstance(par, (ast.ListComp, ast.GeneratorExp, ast.SetComp, ast.DictComp)) and any(subj in text(c) for g in par.generators for c in g.ifs):
+            return True
+        if isinstance(par, ast.Try) and child in par.body and any(h.type is None or any(isinstance(x, ast.Name) and x.id in ("AttributeError", "Exception", "TypeError") for x in ast.walk(h.type)) for h in par.handlers):
+            return True
+        child, par = par, parent(par)
+    return False
+
+
+def u_r8_nullable_fields(schema: Schema, rep: Report):
+    """an element the class does not define has no promised shape: its text / tail may be None"""
+    rep.rule("U-R8", "the code that meets unknown and vendor tags (groom and its overrides, the reducer, from_etree, _convert) never uses the .text / .tail of an element as an object - attribute, method, subscript, len(), concatenation, format spec - outside a test of that same field: ElementTree leaves them None for aggregates and empty elements, so `<INTU.XYZ><A>1</A></INTU.XYZ>` would raise instead of being dropped (this includes arguments of logging calls, which are evaluated before the logger decides to drop the record)")
+    from .flat import flat
+    from .source import parent
+
+    p = schema.p
+    fns = []
+    for nm in ("groom", "from_etree", "_convert"):
+        f = schema.aggregate.own_func(nm)
+        if f is not None:
+            fns.append((schema.aggregate, nm, f))
+    fns += [(ci, nm, f) for ci, nm, f in groom_overrides(schema) if nm == "groom"]
+    n = 0
+    for ci, nm, fn0 in fns:
+        fn = flat(p, ci.module, fn0, ci)
+        for x in ast.walk(fn):
+            for ch in ast.iter_child_nodes(x):
+                ch._parent = x
+        for x in ast.walk(fn):
+            if not (isinstance(x, ast.Attribute) and x.attr in ("text", "tail") and isinstance(x.ctx, ast.Load)):
+                continue
+            n += 1
+            par = parent(x)
+            used = None
+            if isinstance(par, ast.Attribute) and par.value is x:
+                used = f"{text(par)}"
+            elif isinstance(par, ast.Subscript) and par.value is x:
+                used = text(par)
+            elif isinstance(par, ast.Call) and isinstance(par.func, ast.Name) and par.func.id == "len" and x in par.args:
+                used = text(par)
+            elif isinstance(par, ast.BinOp) and isinstance(par.op, (ast.Add, ast.Mod, ast.Mult)) and not (isinstance(par.op, ast.Mod) and par.right is x):
+                used = text(par)
+            elif isinstance(par, ast.FormattedValue) and par.format_spec is not None:
+                used = "f'{" + text(x) + ":...}'"
+            if used is None:
+                continue
+            ok = _guarded_by_test(x, text(x))
+            rep.check("U-R8", f"{ci.name}.{nm}:{text(x)}-used-as-object", ok, f"{used[:70]} is evaluated without a test of {text(x)}: for an unknown aggregate or an empty vendor element it is None and the whole document is rejected with AttributeError/TypeError" if not ok else "", f"{ci.mod.relpath}:{x.lineno}")
+    rep.unit("nullable_field_reads", n)
+    if n == 0:
+        rep.note("U-R8 undecided: no .text / .tail read found in groom / reducer / from_etree")
